@@ -34,11 +34,15 @@ impl<T: DatabaseConnection> DatabaseManager for T {
         for table in tables.iter() {
             tx.execute(table, [])?;
         }
+        #[cfg(feature = "verif")]
+        crate::verif::point("db.create_tables.before_commit");
         tx.commit()
     }
 
     /// Generic method to store data into the database.
     fn store_data<P: Params>(&self, query: &str, params: P) -> Result<(), Error> {
+        #[cfg(feature = "verif")]
+        let _after = crate::verif::around("db.write");
         match self.get_connection().execute(query, params) {
             Ok(_) => Ok(()),
             Err(e) => match e {
@@ -57,6 +61,8 @@ impl<T: DatabaseConnection> DatabaseManager for T {
 
     /// Generic method to remove data from the database.
     fn remove_data<P: Params>(&self, query: &str, params: P) -> Result<(), Error> {
+        #[cfg(feature = "verif")]
+        let _after = crate::verif::around("db.write");
         match self.get_connection().execute(query, params).unwrap() {
             0 => Err(Error::NotFound),
             _ => Ok(()),
